@@ -369,6 +369,10 @@ def run(ctx):
                 ctx.bad('C17.1-register-before-send', nm_, 'the request is sent by %s before (or without) the call being registered in pending_rpcs: a quick reply is routed while the table has no entry for it' % nm_,
                         ctx.where(B, sb), key='DOM:%s:send-before-register' % RPC)
 
+    from ..families import check_error_swallow as _swallow
+    ctx.rule('C17.1-errors-surface', 'in the functions of this property that can themselves report failure, the Result of one of the repository\'s own fallible functions is never turned into "nothing" or a default (ok(), unwrap_or*, map_or*): an error must surface as an error, not as a value the callee never produced; a rule about what must not be there (exercised on the fixture every run)', floor=0)
+    _swallow(ctx, P, 'C17.1-errors-surface', ('edp_node::node::Node::rpc',))
+
 
 def exit_desc(B, bb):
     """line-number-free description of an exit: what error/value it returns"""
